@@ -17,15 +17,21 @@ RULE = ("cases = register map (address size 3/7/15, register size 8/16/32, rando
         "chosen bit position (every position of command and data phase, either clock level: SCK low | SCK high with SCK "
         "falling together with the release or held high into the next transaction | in the cycle of the falling edge | "
         "'highlate' (2 of 5 aborts): SCK high at the release and falling 1..4 cycles LATER while the bus is idle, the "
-        "next transaction then always an ordinary complete read or write, which is the one judged), extra clocks after "
-        "the word, too-fast clocks, unstructured pin noise")
+        "next transaction then always an ordinary complete read or write, which is the one judged; 12% of the aborts: release in "
+        "the very cycle of the LAST falling edge), extra clocks after the word, too-fast clocks, unstructured pin noise; a "
+        "transaction whose command+data bits were all clocked with chip select asserted is COMPLETE (judged by read-value / "
+        "write-strobe-count / read-strobe-count / register-value) however soon chip select is released: release 1, 2, 3 "
+        "(20% each) or 4..6 cycles after the cycle of the last falling edge (1 = the cycle in which the interface reports "
+        "the word)")
 ASSUMPTIONS = [
     "SPI mode 0 controller: sdi is valid in the cycle in which the falling edge of sck is seen; no synchronisers "
     "in the class: sck/sdi/cs are synchronous to the gateware clock",
     "SCK timing for the transaction-level statements: sck low for >= 5 clock cycles before each rising edge (the "
     "controller samples sdo at the rising edge; 5 cycles cover the PROCESSING/LATCH_OUTPUT wait states after "
     "the last command bit), high for >= 1 cycle; chip select asserted at least one cycle before the first "
-    "falling edge and held at least one cycle after the last one (minimum SCK period = 6 clock cycles)",
+    "falling edge and held through the cycle in which the last falling edge is seen (it may be released in the very "
+    "next cycle; released IN the cycle of the last edge the last bit does not count: abort) (minimum SCK period = 6 "
+    "clock cycles)",
     "an aborted transaction may release chip select at either SCK level; after a release with SCK high, SCK returns "
     "low in the same cycle, 1..4 cycles later while chip select is deasserted (then >= 1 idle + >= 1 chip-select lead "
     "+ >= 4 low cycles of the first bit: the SCK-low time before the next rising edge is still >= 5 cycles), or only "
@@ -159,6 +165,8 @@ def make_stimulus(desc, mp, rng):
         if kind in (1, 2) and rng.chance(70 if kind == 1 else 100) and not force_ok:
             abort_at = rng.below(len(bits))
             how = rng.choice(["low", "high", "edge", "highlate", "highlate"])
+            if rng.chance(12):
+                abort_at, how = len(bits) - 1, "edge"    # release in the very cycle of the LAST falling edge ("0 cycles after")
         force_ok = False
         if rng.chance(50):
             c.new_inputs()
@@ -171,7 +179,10 @@ def make_stimulus(desc, mp, rng):
             if not ok:
                 break
         if ok:
-            c.emit(rng.range(1, 6))
+            # all bits clocked: the transaction is COMPLETE however soon chip select is released now.  c.bit() emitted the
+            # row of the last falling edge (chip select still asserted there); 0 further rows = release ONE cycle after
+            # that edge (the cycle in which the interface, having counted the last bit, reports the word), 1 = two, ...
+            c.emit(rng.below(3) if rng.chance(60) else rng.range(3, 5))
             if kind == 3 or rng.chance(15):   # extra clocks / data after the word: must be ignored (STALL)
                 for _ in range(rng.range(1, R + 2)):
                     c.bit(rng.below(2), lo, hi)
@@ -245,6 +256,8 @@ def monitor(desc, mp, stim, rows, cols):
             tags.add("abort-pos=%d" % min(len(falls), 3) if len(falls) < 3 else "abort-pos>=3")
             if edge_abort:
                 tags.add("abort-on-edge")
+                if len(falls) == C + R - 1:
+                    tags.add("release-in-cycle-of-last-edge")      # "0 cycles after": the last bit was NOT clocked with cs asserted
             if stim[t1 - 1][0] == 1 and stim[t1][0] == 1:
                 u = t1
                 while u < T and not stim[u][2] and stim[u][0]:
@@ -276,6 +289,11 @@ def monitor(desc, mp, stim, rows, cols):
         tags.add(("write" if is_write else "read") + ("-unassigned" if not hit else "-kind%d" % regs[hit[0]][1]))
         if len(falls) > C + R:
             tags.add("extra-clocks-after-word")
+        else:
+            # COMPLETE by the stimulus's own bit count: all C+R sampling edges fell while chip select was asserted.  How
+            # soon after the last edge chip select is released does not matter for the clauses below.
+            tags.add("%s-release-after-last-edge=%s" % ("write" if is_write else "read",
+                                                        t1 - falls[-1] if t1 - falls[-1] <= 3 else ">3"))
         # ---- read value: sdo at the rising edges of the data phase
         drises = [u for u in rises if u > falls[C - 1]][:R]
         got = 0
